@@ -89,6 +89,8 @@ func main() {
 		runC12proc(c)
 	case "C01", "C02":
 		runC01proc(c)
+	case "C04", "C07", "C09", "C14":
+		runClock(c)
 	default:
 		fmt.Println("unknown property for vproc:", *prop)
 		os.Exit(2)
